@@ -100,7 +100,7 @@ Smp(T) ==
     [] T[1] = "frozenset" -> LET e == Smp(T[2]) IN << <<"frozenset", {}>>, <<"frozenset", Range(e)>> >>
     [] T[1] = "tuple" -> << <<"tuple", [i \in DOMAIN T[2] |-> FirstOf(Smp(T[2][i]))]>>,
                             <<"tuple", [i \in DOMAIN T[2] |-> LastOf(Smp(T[2][i]))]>> >>
-    [] T[1] = "utuple" -> LET p == [i \in DOMAIN T[2] |-> LastOf(Smp(T[2][i]))]
+    [] T[1] \in {"utuple", "ustar"} -> LET p == [i \in DOMAIN T[2] |-> LastOf(Smp(T[2][i]))]
                               q == [i \in DOMAIN T[4] |-> LastOf(Smp(T[4][i]))]
                               m == Smp(T[3]) IN
                           << <<"tuple", p \o q>>, <<"tuple", p \o m \o q>> >>
